@@ -13,7 +13,7 @@ import json, random
 from . import common as C
 
 PID = "C12"
-MUTANTS = ["n_not_scaled", "volume_ignored", "rho_is_n", "stale_matter_norm", "n_unit_blind"]
+MUTANTS = ["n_not_scaled", "volume_ignored", "rho_is_n", "stale_matter_norm", "n_unit_blind", "operand_aliased", "norm_cached_by_text"]
 DEV_TAGS = {"mass_fraction_mode", "element_proportion", "number_density_dict_form"}
 
 
@@ -53,14 +53,23 @@ def concretisations(rec, nconc, rnd):
             names = A.pick_species(rnd, natural, k)
         else:
             names = rnd.sample(A.FORMULA_POOL, k)
-        if j == 0 or not rec["pfree"]:
+        # one regime of amounts per concretisation, for every composite of the scenario: the model's own values, whole
+        # numbers, sub-unit amounts (alloys, non-stoichiometric compounds), or anything over four decades
+        def draw():
+            if regime == "int":
+                return rnd.randint(1, 12)
+            if regime == "fraction":
+                return rnd.choice([0.2, 0.5, 0.8, 0.95, 1.0, round(rnd.uniform(0.05, 1.0), 3)])
+            if rec["form"] == "text":
+                return round(10 ** rnd.uniform(-2, 2), 4)
+            return 10 ** rnd.uniform(-2, 2)
+        regime = "model" if (j == 0 or not rec["pfree"]) else "int" if rec["pint"] else rnd.choice(["int", "fraction", "fraction", "wide"])
+        if regime == "model":
             props = [int(x) if rec["pint"] else float(x) for x in rec["p"]]
-        elif rec["pint"] or (rec["cls"] == "substance" and j % 2):
-            props = [rnd.randint(1, 12) for _ in range(k)]
-        elif rec["form"] == "text":
-            props = [round(10 ** rnd.uniform(-2, 2), 4) for _ in range(k)]      # written out as plain decimals
+            props2 = [x + 1 if rec["pint"] else x / 2 for x in props]
         else:
-            props = [10 ** rnd.uniform(-2, 2) for _ in range(k)]
+            props = [draw() for _ in range(k)]
+            props2 = [draw() for _ in range(k)]
         if j == 0:
             d, v = float(rec["d"]), float(rec["v"])
         else:
@@ -68,6 +77,7 @@ def concretisations(rec, nconc, rnd):
             v = 10 ** rnd.uniform(-3, 4)
         # A's numbers are what is written in A's units
         inp = {"A.p.%d" % (i + 1): props[i] for i in range(k)}
+        inp.update({"B.p.%d" % (i + 1): props2[i] for i in range(k)})      # a second composite of the same components
         inp["A.d"] = d
         inp["A.v"] = v
         # the amount a later add() tops an existing component up with
